@@ -81,12 +81,22 @@ func (criteria *SearchCriteria) And(other *SearchCriteria) {
 	if criteria.Larger == 0 || other.Larger > criteria.Larger {
 		criteria.Larger = other.Larger
 	}
-	if criteria.Smaller == 0 || other.Smaller < criteria.Smaller {
+	if other.Smaller != 0 && (criteria.Smaller == 0 || other.Smaller < criteria.Smaller) {
 		criteria.Smaller = other.Smaller
 	}
 
 	criteria.Not = append(criteria.Not, other.Not...)
 	criteria.Or = append(criteria.Or, other.Or...)
+
+	if criteria.ModSeq == nil {
+		criteria.ModSeq = other.ModSeq
+	} else if other.ModSeq != nil && other.ModSeq.ModSeq > criteria.ModSeq.ModSeq &&
+		other.ModSeq.MetadataName == criteria.ModSeq.MetadataName &&
+		other.ModSeq.MetadataType == criteria.ModSeq.MetadataType {
+		modSeq := *criteria.ModSeq
+		modSeq.ModSeq = other.ModSeq.ModSeq
+		criteria.ModSeq = &modSeq
+	}
 }
 
 func intersectSince(t1, t2 time.Time) time.Time {
